@@ -1,31 +1,32 @@
 import QuickAdd.Lemmas.RulesTotalAll
+import QuickAdd.Lemmas.SearchTotal
 /-!
 # C01 (continued) — one statement for all value-level productions
 
-`value_rules_total`: for each of the 56 productions that do not read captured text (`valueRules`: all but the eleven token
-readers, whose only failure is `int()` of captured text, the `unmodelled` marker of `ruleNamedNumberDuration`, and `ruleDOWDOM`,
-an `rrule` search whose success needs a calendar periodicity argument not made here) — applied to **any** window on which
+`value_rules_total`: for each of the 58 productions that do not read captured text (`valueRules`: all but the eleven token
+readers, whose only failure is `int()` of captured text; `ruleDOWDOM`'s
+`rrule` search always finds a date by the 400-year periodicity of the calendar, `Lemmas/RRule`) — applied to **any** window on which
 its registered predicates hold (signature literal checked against the regenerated table), whose values are well formed
 (`Val.Ok`), passed the wrapper's calendar check and carry no year above 9990, at any real reference time of the years
-2 … 9989 — the production returns; it does not raise.  These are exactly the facts the search maintains for reachable
+2 … 9500 — the production returns; it does not raise.  These are exactly the facts the search maintains for reachable
 productions (`C02.reach_ok`, `C02.reach_cal`, window predicates by `expand_sound`), so an exception of the candidate stream
-(`search_error_source`) can only come from one of the thirteen excluded productions or from a year beyond 9990.
+(`search_error_source`) can only come from one of the eleven token readers or from a year beyond 9990.
 `interval_rules_total` spells out the two range-combining productions.
 -/
 namespace QuickAdd.C01
 open QuickAdd Gen
 
-/-- **no value-level production raises** (dispatcher level, all 56 at once) -/
+/-- **no value-level production raises** (dispatcher level, all 58 at once) -/
 theorem value_rules_total (rid : RuleId) (hrid : rid ∈ valueRules) (r : String × List Pred) (hr : r ∈ ruleSigs)
     (hid : RuleId.ofName r.1 = some rid) (ts : Ts) (hts : TsOk ts) (args : List Art) (hl : args.length = r.2.length)
     (hp : (List.zipWith predHolds r.2 args).all id = true) (hok : ∀ a ∈ args, a.v.Ok ∧ valCalOk a.v = true ∧ a.v.YearLe 9990) :
     ∃ o, applyId rid ts (args.map (·.v)) = .ok o :=
   QuickAdd.value_rules_total rid hrid r hr hid ts hts args hl hp hok
 
-/-- what is excluded, by name: the token readers and the `rrule` search -/
+/-- what is excluded, by name: the token readers -/
 theorem value_rules_complement : ∀ e ∈ RuleId.all, e.2 ∈ valueRules ∨
     e.1 ∈ ["ruleDOM1", "ruleMonthOrdinal", "ruleDOM2", "ruleYear", "ruleDDMM", "ruleMMDD", "ruleDDMMYYYY", "ruleHHMMmilitary", "ruleHHMM",
-           "ruleHHOClock", "ruleDigitDuration", "ruleNamedNumberDuration", "ruleDOWDOM"] := by decide +kernel
+           "ruleHHOClock", "ruleDigitDuration"] := by decide +kernel
 
 /-- date + clock range and part of day + range never raise on well-formed arguments (the date not beyond 9990) -/
 theorem interval_rules_total (d p : Time) (f t : Option Time) (hd : d.Ok) (hcal : timeCalOk d = true) (hdate : d.isDate = true)
@@ -43,5 +44,67 @@ theorem range_duration_rules_total (n : Int) (u : DUnit) (f t s : Time) (hf : f.
 /-- the hypotheses are met by a concrete window: 'tomorrow' applied at an ordinary reference time -/
 example : TsOk ⟨⟨2018, 3, 7⟩, 12, 43⟩ := ⟨⟨(Date.valid_iff _).mp (by decide), by decide⟩, by decide, by decide⟩
 example : RuleId.ruleDateInterval ∈ valueRules := by decide
+
+/-! ### the token readers, and the search end to end -/
+/-- **the eleven token readers raise only when `int()` of a captured text does**: for a token that is a pattern match of the
+    text and whose group texts all convert (`TokInt`; it fails exactly on the digits of known finding D6), the production
+    returns — the groups it reads without a guard are set on every match of its pattern (`mustAny` over the regenerated
+    table), the month is a number or one of the twelve names, never empty -/
+theorem lexical_rules_total (rid : RuleId) (hrid : rid ∈ lexRules) (r : String × List Pred) (hr : r ∈ ruleSigs)
+    (hid : RuleId.ofName r.1 = some rid) (ts : Ts) (hts : TsOk ts) (txt : List Nat) (args : List Art) (hl : args.length = r.2.length)
+    (hp : (List.zipWith predHolds r.2 args).all id = true) (htok : ∀ a ∈ args, a ∈ matchRegex txt)
+    (hint : ∀ a ∈ args, ∀ k, a.v = .tok k → TokInt k) : ∃ o, applyId rid ts (args.map (·.v)) = .ok o :=
+  QuickAdd.lexical_rules_total rid hrid r hr hid ts hts txt args hl hp htok hint
+
+/-- the two classes are all 69 productions -/
+theorem rules_partition : ∀ e ∈ RuleId.all, e.2 ∈ valueRules ∨ e.2 ∈ lexRules := QuickAdd.rules_partition
+
+/-- **the candidate stream never ends in an exception** (every text, scorer, option set, reference time of the years 2 … 9500),
+    provided (a) `int()` accepts every captured group text of the text's pattern matches and (b) no plain time value of a
+    reachable production carries a year above 9990: the only value the error component can take is the model's own fuel marker -/
+theorem search_total {S : Type} (sc : Scorer S) (ts : Ts) (hts : TsOk ts) (o : Opts) (txt : List Nat) (fuel : Nat)
+    (hint : ∀ a ∈ matchRegex txt, ∀ k, a.v = .tok k → TokInt k)
+    (hyear : ∀ p t rules, ReachE (mkCfg sc ts o.depth txt) (initialStack sc o.depth o.relMatchLenNum o.relMatchLenDen txt fuel).1 p t rules →
+      ∀ a ∈ p, a.v.YearLe 9990) :
+    (searchCore sc ts o txt fuel).1.2 = none ∨ (searchCore sc ts o txt fuel).1.2 = some .unmodelled := by
+  simp only [searchCore]
+  by_cases hx : expiredAt o.deadline (initialStack sc o.depth o.relMatchLenNum o.relMatchLenDen txt fuel).2 = true
+  · simp [hx]
+  · simp only [hx, Bool.false_eq_true, if_false]
+    cases he : (run (mkCfg sc ts o.depth txt) fuel (o.deadline.map (· - (initialStack sc o.depth o.relMatchLenNum o.relMatchLenDen txt fuel).2))
+        (initialStack sc o.depth o.relMatchLenNum o.relMatchLenDen txt fuel).1 [] []).2 with
+    | none => exact Or.inl rfl
+    | some e =>
+      right
+      rcases run_err_reach (mkCfg sc ts o.depth txt) _ fuel _ _ [] [] e (fun x hx' => ReachE.init hx') he with h | ⟨rules, p, t, hr, hexp⟩
+      · rw [h]
+      · exfalso
+        have hok := reach_ok sc ts hts.valid o.depth txt _ (initialStack_ok sc _ _ _ txt fuel) p t rules hr
+        have hcal := C02.reach_cal sc ts o.depth txt _ (C02.initialStack_cal sc _ _ _ txt fuel) p t rules hr
+        have hlin := lineage_reach sc ts hts.valid o.depth txt _ (lineage_init sc _ _ _ txt fuel) p t rules hr
+        have hw : WindowOk txt p :=
+          ⟨fun a ha => ⟨hok.1 a ha, hcal a ha, hyear p t rules hr a ha⟩, fun a ha hv => hlin.toks a ha hv,
+           fun a ha k hk => hint a (hlin.toks a ha (isVal_false_of_tok a k hk)) k hk⟩
+        obtain ⟨out, hout⟩ := expand_total ts hts txt rules hok.2 p t hw
+        have : (mkCfg sc ts o.depth txt).expand rules p t = expandArts ts rules p t := rfl
+        rw [this, hout] at hexp
+        cases hexp
+
+/-- hypothesis (a) is met by ordinary tokens: '5pm' has a numeric group that converts and a marker group that is never converted -/
+example : TokInt { id := 128, caps := [("ampm", [112, 109]), ("hour", [53])] } := by
+  intro n hn w hg
+  simp only [intGroups, List.mem_cons, List.mem_nil_iff, or_false] at hn
+  rcases hn with rfl | rfl | rfl | rfl | rfl | rfl <;> simp [Tok.group] at hg
+  subst hg; exact ⟨5, by decide⟩
+/-- … and it fails where it should: a digit this interpreter's `int()` does not know (D6) -/
+example : ¬ TokInt { id := 128, caps := [("hour", [0x1D7CE])] } ∨ (pyInt [0x1D7CE]).isOk = true := by
+  by_cases h : (pyInt [0x1D7CE]).isOk = true
+  · exact Or.inr h
+  · left
+    intro hi
+    obtain ⟨v, hv⟩ := hi "hour" (by decide) [0x1D7CE] rfl
+    rw [hv] at h; exact h rfl
+/-- the conclusion on a concrete run -/
+example : (searchCore constScorer ⟨⟨2018, 3, 7⟩, 12, 43⟩ {} [116, 111, 109, 111, 114, 114, 111, 119, 32, 53, 112, 109] 400).1.2 = none := by decide +kernel
 
 end QuickAdd.C01
